@@ -182,6 +182,15 @@ func execConnServe(toks []string) string {
 			}
 		}()
 	}
+	noReports := false
+	if hs, _ := kvGet(toks, "h"); hs == "mux2" {
+		// a mux with a handler for DWR only and no catch-all, whose error reports nobody collects:
+		// messages without a handler are reported by the mux itself, from inside the dispatch
+		mux = diam.NewServeMux()
+		mux.HandleFunc("DWR", h.ServeDIAM)
+		handler = mux
+		noReports = true
+	}
 	xs, _ := kvGet(toks, "x")
 	var obs []*connObs
 	for i := 0; i < n; i++ {
@@ -206,7 +215,11 @@ func execConnServe(toks []string) string {
 		var parts []string
 		for _, o := range obs {
 			s, c := goroutinesFor(o.mc)
-			parts = append(parts, o.snapshot(0, 0, 0, n, s, c))
+			sn := o.snapshot(0, 0, 0, n, s, c)
+			if noReports { // nobody reads the report channel: what was offered cannot be observed
+				sn = sn[:strings.LastIndex(sn, ",")] + ",*"
+			}
+			parts = append(parts, sn)
 		}
 		return strings.Join(parts, "|")
 	}
@@ -384,9 +397,69 @@ func connMsg(r *RNG, id uint32) []byte {
 	return simpleMsg(280, 0, 0, id, id)
 }
 
+// genConnFaults2: several connections on a mux that handles DWR only and whose error reports are
+// never collected: undecodable input (fills the one-slot report channel), messages nobody
+// handles (reported by the mux from inside the dispatch), then watchdog requests everywhere.
+func genConnFaults2(r *RNG, n int, emit func(string)) {
+	for i := 0; i < n; i++ {
+		nc := 2 + r.Intn(2)
+		id := uint32(0)
+		var evs []string
+		dead := make([]bool, nc)
+		dwr := func(k int) {
+			id++
+			evs = append(evs, fmt.Sprintf("%d:D%s", k, hex.EncodeToString(simpleMsg(280, 0x80, 0, id, id, diam.NewAVP(264, 0x40, 0, datatype.DiameterIdentity("a")), diam.NewAVP(296, 0x40, 0, datatype.DiameterIdentity("b"))))))
+			evs = append(evs, fmt.Sprintf("%d:H", k))
+		}
+		unhandled := func(k int) {
+			id++
+			var m []byte
+			switch r.Intn(3) {
+			case 0:
+				m = simpleMsg(272, 0x80, 4, id, id, diam.NewAVP(263, 0x40, 0, datatype.UTF8String("s")))
+			case 1:
+				m = simpleMsg(257, 0x80, 0, id, id) // a header-only CER: no handler for it on this mux
+			default:
+				m = simpleMsg(280, 0, 0, id, id)
+			}
+			evs = append(evs, fmt.Sprintf("%d:D%s", k, hex.EncodeToString(m)))
+		}
+		for s, steps := 0, 3+r.Intn(7); s < steps; s++ {
+			k := r.Intn(nc)
+			if dead[k] {
+				continue
+			}
+			switch c := r.Intn(10); {
+			case c < 2: // undecodable: unknown command / truncated AVP, closes k and offers a report
+				bad := rawHeader(28, 0x80, 280, 0, 1, 1)
+				bad = append(bad, rawAVP(264, 0x40, 0, 40, []byte("xy"), false)...)
+				if r.Bool() {
+					bad = append(rawHeader(20, 0x80, 9999, 0, 1, 1), 1, 2, 3)
+				}
+				evs = append(evs, fmt.Sprintf("%d:D%s", k, hex.EncodeToString(bad)))
+				dead[k] = true
+			case c < 6:
+				unhandled(k)
+			default:
+				dwr(k)
+			}
+		}
+		for k := 0; k < nc; k++ {
+			if !dead[k] {
+				dwr(k)
+			}
+		}
+		emit(fmt.Sprintf("conn serve n=%d h=mux2 ev=%s", nc, strings.Join(evs, ",")))
+	}
+}
+
 func genConnServe(r *RNG, n int, op string, emit func(string)) {
 	if strings.HasPrefix(op, "cnall") {
 		genConnAll(r, op, emit)
+		return
+	}
+	if op == "faults2" {
+		genConnFaults2(r, n, emit)
 		return
 	}
 	for i := 0; i < n; i++ {
@@ -575,7 +648,7 @@ func genConnAll(r *RNG, op string, emit func(string)) {
 
 func init() {
 	executors["conn serve"] = execConnServe
-	for _, op := range []string{"serve", "multi", "faults", "closenotify", "cnall3", "cnall4", "cnall5", "cnall6"} {
+	for _, op := range []string{"serve", "multi", "faults", "faults2", "closenotify", "cnall3", "cnall4", "cnall5", "cnall6"} {
 		connGens[op] = genConnServe
 	}
 }
